@@ -415,7 +415,7 @@ def big_lattices(tier):
     sizes = [(7, 'contranominal'), (9, 'contranominal')] + ([(10, 'contranominal'), (12, 'contranominal')] if tier == 'thorough' else [])
     for n, _ in sizes:
         out.append(T(n, n, [[j for j in range(1, n + 1) if j != i + 1] for i in range(n)], f'contranominal{n}'))
-    for n in (100, 420) + ((1000, 2000) if tier == 'thorough' else ()):
+    for n in (100, 420) + ((700, 1000) if tier == 'thorough' else ()):
         out.append(T(n, n, [list(range(1, i + 2)) for i in range(n)], f'chain{n}'))
     rng = random.Random(5)
     for n, m, dens in ((14, 12, 0.55), (18, 14, 0.5)) + (((24, 16, 0.5), (30, 18, 0.45)) if tier == 'thorough' else ()):
